@@ -201,7 +201,7 @@ def obligations(tier, seed):
     from harness import C06 as c06
 
     for kind in c06.KINDS:
-        for form, fname in ((5, "blank-info-line"), (0, "empty-description-link")):
+        for form, fname in ((5, "blank-info-line"), (0, "empty-description-link"), (6, "selector-containing-URL:")):
             obs.append(Ob(id="C09.4-render[%s,%s]" % (dl.PROTO_NAMES[kind], fname), body="harness.C06:body_agree", sig="kind: int, form: int, t: int, name: str, tail: str, port: int",
                           pre=["kind == %d" % kind, "form == %d" % form, "0 <= t < %d" % len(c06.TYPES), "len(name) <= 1", "all(c in 'n ' for c in name)", "name == name.strip()", "tail == 'a'", "port == 70"],
                           timeout=200, desc="the same gophermap entry (a blank informational line / a link with an empty description) is rendered by %s with the entry's own (possibly empty) text, never with its selector" % dl.PROTO_NAMES[kind],
